@@ -53,7 +53,15 @@ def run(prog, an, rep):
                'is outside that alphabet')
     rep.run_rules(prog, an, [factory_order, unambiguous, grammar,
                              destinations, construction_sites, round_trip,
-                             parent_lookup, notes])
+                             parent_lookup, version_tuple, notes])
+
+
+def version_tuple(prog, an, rep):
+    """A constructed name parses back to the same version: x, x.y, x.y.z and
+    x.y.z.n give tuples of 2, 2, 3 and 4 numbers, a 0 counting as a number
+    (shared with C03's version-key rule)."""
+    from . import c03
+    c03.version_keys(prog, an, rep)
 
 
 def factory_classes(prog, an):
